@@ -63,9 +63,10 @@ Next == /\ l <= NRec
                      IN /\ m' = IF codes = {} \/ Len(e.data) # fb.n THEN m2 ELSE AbsMap(fb, e.data)
                         /\ prev' = e.data /\ acc' = a /\ cur' = cur /\ fb' = fb /\ st' = s2
                         /\ IF l = NRec THEN Flush(cur, a) /\ PrintT("STAT " \o ToJson(s2)) ELSE TRUE
-             [] e.ev = "panic" ->      \* totality is C08's business; the recorder ends the history here
-                  /\ UNCHANGED <<fb, m, prev, acc, cur, st>>
-                  /\ IF l = NRec THEN Flush(cur, acc) /\ PrintT("STAT " \o ToJson(st)) ELSE TRUE
+             [] e.ev = "panic" ->      \* a call that panics did not return the promised result; the recorder ends the history here
+                  /\ LET a == Append(acc, [codes |-> {"library_call_panicked"}, msg |-> e.msg, loc |-> e.loc]) IN
+                     /\ acc' = a /\ UNCHANGED <<fb, m, prev, cur, st>>
+                     /\ IF l = NRec THEN Flush(cur, a) /\ PrintT("STAT " \o ToJson(st)) ELSE TRUE
         /\ l' = l + 1
 Spec == Init /\ [][Next]_vars
 
